@@ -5,6 +5,7 @@ import (
 	"bytes"
 	"regexp"
 	"runtime"
+	"sort"
 	"strconv"
 	"strings"
 )
@@ -94,9 +95,14 @@ func (g *G) Has(sub string) bool {
 	return false
 }
 
-// FirstGribigo returns the innermost frame that belongs to gribigo.
+// FirstGribigo returns the innermost frame that belongs to gribigo. It
+// returns "" when the goroutine is parked inside harness code that gribigo
+// called (a fake stream's Send/Recv): that wait is harness-induced.
 func (g *G) FirstGribigo() string {
 	for _, f := range g.Frames {
+		if strings.HasPrefix(f, "verifh/") {
+			return ""
+		}
 		if strings.Contains(f, "github.com/openconfig/gribigo/") {
 			return strings.TrimPrefix(f, "github.com/openconfig/")
 		}
@@ -151,11 +157,17 @@ func BlockedInGribigo(gs []*G, roots ...int64) string {
 				continue
 			}
 			s := f + "[" + g.State + "]"
+			// the idle states of a healthy Modify RPC: the handler waits for an
+			// error, its sender waits for a response to write
+			if s == "gribigo/server.(*Server).Modify[chan receive]" || s == "gribigo/server.(*Server).Modify.func2[select]" {
+				continue
+			}
 			if !seen[s] {
 				seen[s] = true
 				sigs = append(sigs, s)
 			}
 		}
 	}
+	sort.Strings(sigs)
 	return strings.Join(sigs, "+")
 }
